@@ -8,7 +8,7 @@ Engines
   history  explicit-state BFS (a state is the history reaching it, replayed on fresh objects) over
            {set_size(mode[, frame]), size = enum | tuple, width = / height =, terminal resize, cell-size change,
            set_cell_ratio(float | FIXED | DYNAMIC), render, render that fails because the source
-           file is missing} to the fixpoint, plus an unmerged enumeration of all
+           file is missing, a cached ImageIterator running across a resize / ratio change} to the fixpoint, plus an unmerged enumeration of all
            histories up to a small depth (guards the state merging).
   urwid    UrwidImage.rows((maxcol,)) against the canvas actually rendered for the same size.
 
@@ -374,6 +374,11 @@ class HistProgram:
         if render:
             ops.append(("render",))
             ops.append(("render_fail",))
+            # a cached ImageIterator running across a terminal / cell-ratio change
+            for j in range(len(self.envs)):
+                ops.append(("iter_env", j))
+            for r in ratios:
+                ops.append(("iter_ratio", r))
         self.ops = ops
         self.set_frames = [tuple(f) for f in set_frames]
 
@@ -395,10 +400,62 @@ def src_file(src):
     key = (os.getpid(), tuple(src))
     path = _SRC_FILES.get(key)
     if path is None:
-        path = os.path.join(imgkit.tmpdir(), f"c04-{key[0]}-{src[0]}x{src[1]}.png")
-        pil(tuple(src)).save(path)
+        path = os.path.join(imgkit.tmpdir(), f"c04-{key[0]}-{src[0]}x{src[1]}.gif")
+        imgkit.gif(src[0], src[1], 2, path=path)       # two frames: the history image can be iterated
         _SRC_FILES[key] = path
     return path
+
+
+def frame_size(frame, fam):
+    """(columns, lines) a rendered frame occupies, read off the frame text: lines = line count; columns = glyphs
+    of the first line outside control sequences (text family) / the `c=` key of the first kitty transmission."""
+    first = frame.split("\n", 1)[0]
+    lines = frame.count("\n") + 1
+    if fam == "text":
+        cols = 0
+        i, n = 0, len(first)
+        while i < n:
+            if first[i] == "\x1b" and i + 1 < n and first[i + 1] == "[":
+                i += 2
+                while i < n and not ("@" <= first[i] <= "~"):
+                    i += 1
+                i += 1
+            else:
+                cols += 1
+                i += 1
+        return cols, lines
+    a = first.find("\x1b_G")
+    keys = first[a + 3:first.find(";", a)].split(",") if a >= 0 else []
+    cols = next((int(k[2:]) for k in keys if k.startswith("c=")), None)
+    return cols, lines
+
+
+def hist_iterator(L, prog, st, op, check):
+    """A cached ImageIterator over the history image: first loop, then a terminal / cell-ratio change (judged as
+    usual), then the next loop - every frame occupies the size the image has NOW (a dynamic size follows the
+    change also in what a running cached iterator delivers)."""
+    img = st.img
+    inner = ("env" if op[0] == "iter_env" else "ratio", op[1])
+    bad = []
+    it = L.common.ImageIterator(img, -1, "1.1", True)
+    try:
+        for phase in ("first loop", "next loop after the change"):
+            if phase != "first loop":
+                bad += _hist_apply(L, prog, st, inner, check)
+                if bad:
+                    return bad
+            for k in range(2):
+                frame = next(it)
+                if check:
+                    want = tuple(img.rendered_size)
+                    got = frame_size(frame, prog.fam)
+                    if got != want:
+                        bad.append(("iterator-frame-size", f"frame {k} of the {phase} of a cached ImageIterator "
+                                    f"occupies {got}, the image's size is {want} now"))
+                        return bad
+    finally:
+        it.close()
+    return bad
 
 
 def hist_start(L, prog):
@@ -450,6 +507,8 @@ def _hist_apply(L, prog, st, op, check):
     bad = []
     kind = op[0]
     before = img.size
+    if kind in ("iter_env", "iter_ratio"):
+        return hist_iterator(L, prog, st, op, check)
     if kind in ("env", "ratio", "render", "render_fail"):
         if kind == "env":
             j = op[1]
